@@ -30,6 +30,7 @@ ASSUMPTIONS = [
 ]
 MIN_NONTRIVIAL_FRACTION = 0.3
 RULE += " Added after the seeded rounds: " + 'A case may perform earlier renders on the same Ribosome first (including renders that fail half-way inside an include or a filter).'
+RULE += " Templates reach the registry through every documented path (register_template with a named mRNA, with an unnamed mRNA and a name override, with mRNAs that all carry the same .name, the constructor's templates mapping, create_template) and the main template is passed as a named object, an unnamed object, an object named like an included template, or by registry key: {{>key}} resolves by registry key whatever the objects call themselves. The strict-mode table is repeated over these modes."
 EXHAUSTIVE_NOTE = {"quick": "9 channels x 6 planted constructs = 54 part-B cases, complete; strict-mode table: 11 locations of a plain variable (main, arms, loop body, includes to depth 3, filtered) x bound/unbound x strict on/off x with/without an earlier render = 88 cases", "thorough": "same table, complete"}
 
 VARS = ["a", "b", "c", "user", "topic"]
@@ -139,7 +140,9 @@ def _case_a(draw):
         if draw(st.booleans()):
             templates[name] = draw(_segs(d + 1, 3))
     return {"main": draw(_segs(0, 8)), "templates": templates, "ctx": draw(_ctx()), "strict": draw(st.sampled_from([False, False, True])), "plant": None,
-            "pre": draw(st.sampled_from([False, False, True]))}
+            "pre": draw(st.sampled_from([False, False, True])),
+            "reg": draw(st.sampled_from(["named", "named", "override", "shared-name", "ctor", "create"])),
+            "main_mode": draw(st.sampled_from(["object", "object", "unnamed", "by-name", "same-name-as-include"]))}
 
 
 def _plant_case(channel, construct, pre, post, extra_ctx):
@@ -222,6 +225,10 @@ def _strict_table():
             for strict in (True, False):
                 for pre in (False, True):
                     yield {"main": main, "templates": tpls, "ctx": ctx, "strict": strict, "plant": None, "pre": pre}
+                if tpls and bound:
+                    for reg in ("override", "shared-name", "ctor", "create"):
+                        for mm in ("object", "unnamed", "by-name", "same-name-as-include"):
+                            yield {"main": main, "templates": tpls, "ctx": ctx, "strict": strict, "plant": None, "pre": False, "reg": reg, "main_mode": mm}
 
 
 def enumerate_cases(tier):
@@ -396,9 +403,37 @@ def judge(case):
     ctx = {k: (tuple(v["__tuple__"]) if isinstance(v, dict) and "__tuple__" in v else v) for k, v in case["ctx"].items()}
     templates = case["templates"]
     text = unparse(case["main"])
-    rib = Ribosome(strict=case["strict"], silent=True)
-    for name, segs in templates.items():
-        rib.register_template(mRNA(sequence=unparse(segs), name=name))
+    # how the templates get into the registry and how the main template is handed over: the registry key is what {{>key}} names,
+    # whatever the mRNA object calls itself
+    reg = case.get("reg", "named")
+    if reg == "ctor":
+        rib = Ribosome(templates={name: mRNA(sequence=unparse(segs)) for name, segs in templates.items()}, strict=case["strict"], silent=True)
+    else:
+        rib = Ribosome(strict=case["strict"], silent=True)
+        for name, segs in templates.items():
+            if reg == "named":
+                rib.register_template(mRNA(sequence=unparse(segs), name=name))
+            elif reg == "override":
+                rib.register_template(mRNA(sequence=unparse(segs)), name=name)
+            elif reg == "shared-name":
+                rib.register_template(mRNA(sequence=unparse(segs), name="prompt"), name=name)
+            elif reg == "create":
+                rib.create_template(unparse(segs), name)
+            else:
+                raise HarnessError("unknown registration mode %r" % (reg,))
+    main_mode = case.get("main_mode", "object")
+
+    def main_template():
+        if main_mode == "object":
+            return mRNA(sequence=text, name="main")
+        if main_mode == "unnamed":
+            return mRNA(sequence=text)
+        if main_mode == "same-name-as-include":
+            return mRNA(sequence=text, name=(sorted(templates) or ["main"])[0] if reg != "shared-name" else "prompt")
+        if main_mode == "by-name":
+            rib.register_template(mRNA(sequence=text), name="main")
+            return "main"
+        raise HarnessError("unknown main mode %r" % (main_mode,))
     ref = _Ref(templates, ctx, REF_FILTERS)
     try:
         want = ref.render(case["main"])
@@ -427,12 +462,12 @@ def judge(case):
         for strict_flag, pre_ctx in ((True, only_main), (True, {}), (False, as_ints), (False, other)):
             rib.strict = strict_flag
             try:
-                rib.translate(mRNA(sequence=text, name="main"), **pre_ctx)
+                rib.translate(main_template(), **pre_ctx)
             except Exception:
                 pass
         rib.strict = saved
     try:
-        protein = rib.translate(mRNA(sequence=text, name="main"), **ctx)
+        protein = rib.translate(main_template(), **ctx)
     except ValueError as e:
         if not case["strict"]:
             out.fail("raise:ValueError:non-strict", "translate raised %s in non-strict mode" % e, d)
